@@ -120,7 +120,7 @@ def frame_values(ti, t, f):
 
 def build(lp):
     """lp: {'types': [{'name','channels':[{'name','code','dims'}], 'n'}], 'order': [type index per IFLR] or None,
-            'empty_at': int or None, 'layout': 'one'|'split', 'extra_sets': [set models written after the FRAME set]}"""
+            'empty_at': int or None, 'layout': 'one'|'split', 'extra_sets': [set models written after the FRAME set], 'sul': keyword arguments of rp66_ref.sul_bytes}"""
     types = lp['types']
     order = lp.get('order')
     if order is None:
@@ -148,7 +148,7 @@ def build(lp):
         iflr_rec_index[ti].append(len(recs))
         recs.append(rec)
         pos += 1
-    data, lay = R.build_file(recs)
+    data, lay = R.build_file(recs, sul=R.sul_bytes(**lp['sul'])) if lp.get('sul') else R.build_file(recs)
     return data, lay, iflr_rec_index
 
 
